@@ -471,6 +471,8 @@ func (e persistEngine) genC11p(g *Gen, emit func(persistIn)) {
 		// the other template assignment, with the injection first
 		f.Tpl, a.Tpl = !f.Tpl, !a.Tpl
 		emit(persistIn{Arts: []artJ{in2, f, a}})
+		// the name only on an append, after an ordinary file that already carries an append
+		emit(persistIn{Arts: []artJ{mkArt("file", "ok.go", "F"), mkArt("app", "ok.go", "+"), a}})
 	})
 }
 
